@@ -785,3 +785,22 @@ func init() {
 	mut("C11", "(benign) Encoder.Write flushes, then hands large payloads to the stream directly", false, "",
 		Edit{"types/encoding.go", wr, "\t\tif len(p) >= len(e.buf) {\n\t\t\te.Flush()\n\t\t\tif e.err == nil {\n\t\t\t\t_, e.err = e.w.Write(p)\n\t\t\t}\n\t\t\tbreak\n\t\t}\n\t\tif e.n == len(e.buf) {\n\t\t\te.Flush()\n\t\t}\n\t\tc := copy(e.buf[e.n:], p)"})
 }
+
+func init() {
+	// ---- C03: siafund unlock / developer-address override as a decision table ----
+	v := "consensus/validation.go"
+	old := "\t\t} else if sfi.UnlockConditions.UnlockHash() != parent.SiafundOutput.Address &&\n\t\t\t// override old developer siafund address\n\t\t\t!(ms.base.childHeight() >= ms.base.Network.HardforkDevAddr.Height &&\n\t\t\t\tparent.SiafundOutput.Address == ms.base.Network.HardforkDevAddr.OldAddress &&\n\t\t\t\tsfi.UnlockConditions.UnlockHash() == ms.base.Network.HardforkDevAddr.NewAddress) {\n\t\t\treturn fmt.Errorf(\"siafund input %v claims incorrect unlock conditions for siafund output %v\", i, sfi.ParentID)\n\t\t}\n"
+	sel := func(cond string) string {
+		return "\t\t}\n\t\taddr := parent.SiafundOutput.Address\n\t\tif " + cond + " {\n\t\t\taddr = ms.base.Network.HardforkDevAddr.NewAddress\n\t\t}\n\t\tif sfi.UnlockConditions.UnlockHash() != addr {\n\t\t\treturn fmt.Errorf(\"siafund input %v claims incorrect unlock conditions for siafund output %v\", i, sfi.ParentID)\n\t\t}\n"
+	}
+	full := "ms.base.childHeight() >= ms.base.Network.HardforkDevAddr.Height && parent.SiafundOutput.Address == ms.base.Network.HardforkDevAddr.OldAddress && sfi.UnlockConditions.UnlockHash() == ms.base.Network.HardforkDevAddr.NewAddress"
+	mut("C03", "(benign) dev-address override selects the expected address into a local", false, "", Edit{v, old, sel(full)})
+	mut("C03", "address-selection form without the hardfork height (override active before the fork)", true, "auth-guard|v1-devaddr-override:height",
+		Edit{v, old, sel("parent.SiafundOutput.Address == ms.base.Network.HardforkDevAddr.OldAddress && sfi.UnlockConditions.UnlockHash() == ms.base.Network.HardforkDevAddr.NewAddress")})
+	mut("C03", "address-selection form applied to every parent (any output spendable by the new developer key)", true, "auth-guard|v1-devaddr-override:old",
+		Edit{v, old, sel("ms.base.childHeight() >= ms.base.Network.HardforkDevAddr.Height && sfi.UnlockConditions.UnlockHash() == ms.base.Network.HardforkDevAddr.NewAddress")})
+	mut("C03", "override accepts any conditions for the old developer address after the fork", true, "auth-guard|v1-devaddr-override:new",
+		Edit{v, "\t\t\t\tparent.SiafundOutput.Address == ms.base.Network.HardforkDevAddr.OldAddress &&\n\t\t\t\tsfi.UnlockConditions.UnlockHash() == ms.base.Network.HardforkDevAddr.NewAddress) {", "\t\t\t\tparent.SiafundOutput.Address == ms.base.Network.HardforkDevAddr.OldAddress) {"})
+	mut("C03", "siafund unlock hash compared only when the override does not apply… inverted (mismatch accepted)", true, "auth-guard|v1-unlock-hash:SiafundInputs",
+		Edit{v, "\t\t} else if sfi.UnlockConditions.UnlockHash() != parent.SiafundOutput.Address &&\n\t\t\t// override old developer siafund address\n\t\t\t!(", "\t\t} else if sfi.UnlockConditions.UnlockHash() == parent.SiafundOutput.Address &&\n\t\t\t// override old developer siafund address\n\t\t\t!("})
+}
